@@ -1209,6 +1209,35 @@ def _methods_and_multipart():
                             "why": "multipart form read from the stream, %s: got %s" % (
                                 "complete upload" if disc is None else
                                 "client disconnected after %d of 3 chunks, before the final message (ClientDisconnect expected)" % disc, repr(res[:1])[:160])})
+    # a multipart form that the parser rejects in mid-stream (a part without Content-Disposition; too many parts): the
+    # stream has been consumed by that attempt - a later body / stream access raises the documented
+    # RuntimeError("Stream consumed"), it does not hand out whatever happened to be left unread
+    bad_forms = {"no-disposition": b"--bd\r\nX-Other: 1\r\n\r\nvalue\r\n--bd\r\nContent-Disposition: form-data; name=\"a\"\r\n\r\n1\r\n--bd--\r\n" + b"tail" * 50,
+                 "too-many-parts": b"".join(b"--bd\r\nContent-Disposition: form-data; name=\"f\"\r\n\r\nv\r\n" for _ in range(400)) + b"--bd--\r\n"}
+    for label, data in bad_forms.items():
+        for second in ("body", "stream"):
+            n += 1
+            cut = len(data) // 3
+            inp = ScriptedInput([data[:cut], data[cut:2 * cut], data[2 * cut:]])
+            environ = {"REQUEST_METHOD": "POST", "CONTENT_TYPE": "multipart/form-data; boundary=bd", "wsgi.input": inp,
+                       "CONTENT_LENGTH": str(len(data)), "PATH_INFO": "/", "QUERY_STRING": "", "SERVER_NAME": "t",
+                       "SERVER_PORT": "80", "wsgi.url_scheme": "http"}
+            req = wsgi_requests.Request(environ)
+            try:
+                req.form
+                first = "ok"
+            except Exception as exc:  # noqa
+                from baize.exceptions import HTTPException as _HE
+                first = "HTTPException" if isinstance(exc, _HE) else exc_name(exc)
+            try:
+                got = req.body if second == "body" else b"".join(req.stream())
+                res = "returned %d bytes" % len(got)
+            except Exception as exc:  # noqa
+                res = exc_name(exc)
+            if first != "HTTPException" or res != "RuntimeError":
+                out.append({"line": "wsgi_rejected_multipart %s then %s" % (label, second), "out": "%s / %s" % (first, res),
+                            "why": "multipart form rejected in mid-stream (%s: form -> %s), then %s: %s (RuntimeError 'Stream "
+                                   "consumed' expected)" % (label, first, second, res)})
     return out, n
 
 
